@@ -353,6 +353,15 @@ pub struct Sim {
     pub default_cancelable: bool,
     /// Per target descriptor (sqe.fd) override of `default_cancelable`.
     pub cancel_policy: Vec<(i32, bool)>,
+    /// Cancellation as the kernel does it for requests it cannot finish at once (K2, K4; used by
+    /// C12). Off (default): ASYNC_CANCEL looks at `cancelable` only and REGISTER_SYNC_CANCEL
+    /// finishes everything in flight. On: a request is cancelable iff its `cancelable` flag is set
+    /// and it is not a two-step request (SEND_ZC / SENDMSG_ZC) whose result has been posted
+    /// (`posted > 0`: only the notification is outstanding, nothing can hurry it). Cancelling a
+    /// two-step request whose result is due posts (-ECANCELED, F_MORE) and then the notification
+    /// (0, F_NOTIF). ASYNC_CANCEL of a request that cannot be cancelled answers EALREADY;
+    /// REGISTER_SYNC_CANCEL leaves such requests in flight and fails with ETIME.
+    pub strict_cancel: bool,
     pub cfg: SetupConfig,
     pub mmaps_seen: usize,
     pub madvises_seen: usize,
@@ -415,9 +424,9 @@ pub enum BlockAction {
     Stuck,
 }
 
-fn global() -> MutexGuard<'static, Global> {
+fn global_mutex() -> &'static Mutex<Global> {
     static G: OnceLock<Mutex<Global>> = OnceLock::new();
-    let m = G.get_or_init(|| {
+    G.get_or_init(|| {
         Mutex::new(Global {
             sims: Vec::new(),
             pending: SetupConfig::default(),
@@ -427,8 +436,11 @@ fn global() -> MutexGuard<'static, Global> {
             block: None,
             last_errno_setup: Vec::new(),
         })
-    });
-    match m.lock() {
+    })
+}
+
+fn global() -> MutexGuard<'static, Global> {
+    match global_mutex().lock() {
         Ok(g) => g,
         Err(e) => e.into_inner(),
     }
@@ -472,6 +484,19 @@ pub fn with<R>(f: impl FnOnce(&mut Sim) -> R) -> R {
     let mut g = global();
     let sim = g.sims.iter_mut().rev().find(|s| !s.dead).expect("no simulated ring");
     f(sim)
+}
+
+/// Like `with`, but never waits: `None` when the simulator's lock is held (e.g. by this very
+/// thread, inside one of the hooks) or when there is no live simulated ring. For callers that
+/// may run anywhere, such as the allocator's free-time probe.
+pub fn try_with<R>(f: impl FnOnce(&mut Sim) -> R) -> Option<R> {
+    let mut g = match global_mutex().try_lock() {
+        Ok(g) => g,
+        Err(std::sync::TryLockError::Poisoned(e)) => e.into_inner(),
+        Err(std::sync::TryLockError::WouldBlock) => return None,
+    };
+    let sim = g.sims.iter_mut().rev().find(|s| !s.dead)?;
+    Some(f(sim))
 }
 
 pub fn with_fd<R>(fd: i32, f: impl FnOnce(&mut Sim) -> R) -> Option<R> {
@@ -600,6 +625,14 @@ impl Sim {
     /// Number of CQEs published and not yet released by the implementation.
     pub fn cq_ready(&self) -> u32 {
         self.cq_tail().wrapping_sub(self.cq_head())
+    }
+    /// The `k`-th completion published and not yet released by the implementation (0 = the one
+    /// at the head). Does not allocate.
+    pub fn cq_peek(&self, k: u32) -> Option<Cqe> {
+        if k >= self.cq_ready().min(self.cq_entries) {
+            return None;
+        }
+        Some(unsafe { self.cqe_slot(self.cq_head().wrapping_add(k)).read_volatile() })
     }
     /// Number of SQEs published and not yet consumed.
     pub fn sq_pending(&self) -> u32 {
@@ -761,9 +794,8 @@ impl Sim {
                 self.log.push(Ev::Consumed { sqe, req: None });
                 // K4: matched against requests submitted before it.
                 let res = match self.inflight.iter().position(|r| r.sqe.user_data == sqe.addr) {
-                    Some(pos) if self.inflight[pos].cancelable => {
-                        let target = self.inflight.remove(pos);
-                        self.post(Cqe { user_data: target.sqe.user_data, res: -libc::ECANCELED, flags: 0 });
+                    Some(pos) if self.can_cancel(pos) => {
+                        self.cancel_at(pos);
                         0
                     }
                     Some(_) => -libc::EALREADY,
@@ -806,6 +838,34 @@ impl Sim {
                     self.complete(req, res, flags);
                 }
             }
+        }
+    }
+
+    /// A request that posts its result with IORING_CQE_F_MORE and a notification afterwards.
+    pub fn is_two_step(sqe: &Sqe) -> bool {
+        sqe.opcode == OP_SEND_ZC || sqe.opcode == OP_SENDMSG_ZC
+    }
+
+    /// Would a cancellation finish in-flight request `pos` now? (see `strict_cancel`)
+    fn can_cancel(&self, pos: usize) -> bool {
+        let r = &self.inflight[pos];
+        if !self.strict_cancel {
+            return r.cancelable;
+        }
+        r.cancelable && !(Sim::is_two_step(&r.sqe) && r.posted > 0)
+    }
+
+    /// Cancel in-flight request `pos` (which `can_cancel`): it leaves the in-flight table and posts
+    /// its final completion; under `strict_cancel` a two-step request (whose result is due) posts
+    /// the result first (-ECANCELED with F_MORE), then the notification.
+    fn cancel_at(&mut self, pos: usize) {
+        let target = self.inflight.remove(pos);
+        let ud = target.sqe.user_data;
+        if self.strict_cancel && Sim::is_two_step(&target.sqe) {
+            self.post(Cqe { user_data: ud, res: -libc::ECANCELED, flags: CQE_F_MORE });
+            self.post(Cqe { user_data: ud, res: 0, flags: CQE_F_NOTIF });
+        } else {
+            self.post(Cqe { user_data: ud, res: -libc::ECANCELED, flags: 0 });
         }
     }
 
@@ -942,6 +1002,7 @@ unsafe fn hook_setup(entries: c_uint, p: *mut c_void) -> Option<c_int> {
         files: None,
         default_cancelable: true,
         cancel_policy: Vec::new(),
+        strict_cancel: false,
         cfg: cfg.clone(),
         mmaps_seen: 0,
         madvises_seen: 0,
@@ -1155,14 +1216,37 @@ unsafe fn hook_register(fd: c_int, opcode: c_uint, arg: *const c_void, nr: c_uin
         }
         REGISTER_SYNC_CANCEL => {
             let r = unsafe { (arg as *const SyncCancelReg).read() };
-            detail = format!("flags={} inflight={}", r.flags, sim.inflight.len());
-            // K4: every in-flight request posts its final completion.
-            let all = std::mem::take(&mut sim.inflight);
-            let n = all.len();
-            for req in all {
-                sim.post(Cqe { user_data: req.sqe.user_data, res: -libc::ECANCELED, flags: 0 });
+            if sim.strict_cancel {
+                // K2/K4: every in-flight request that can be cancelled, in order, exactly as
+                // ASYNC_CANCEL would; the others stay in flight and the call times out.
+                let n = sim.inflight.len();
+                let mut pos = 0;
+                while pos < sim.inflight.len() {
+                    if sim.can_cancel(pos) {
+                        sim.cancel_at(pos);
+                    } else {
+                        pos += 1;
+                    }
+                }
+                let left = sim.inflight.len();
+                detail = format!("flags={} inflight={} left={}", r.flags, n, left);
+                if left > 0 {
+                    -libc::ETIME
+                } else if n == 0 {
+                    -libc::ENOENT
+                } else {
+                    0
+                }
+            } else {
+                detail = format!("flags={} inflight={}", r.flags, sim.inflight.len());
+                // K4: every in-flight request posts its final completion.
+                let all = std::mem::take(&mut sim.inflight);
+                let n = all.len();
+                for req in all {
+                    sim.post(Cqe { user_data: req.sqe.user_data, res: -libc::ECANCELED, flags: 0 });
+                }
+                if n == 0 { -libc::ENOENT } else { 0 }
             }
-            if n == 0 { -libc::ENOENT } else { 0 }
         }
         _ => {
             detail = "unsupported".into();
